@@ -110,6 +110,9 @@ class SubPackets(collections_abc.MutableMapping, Field):
         super(SubPackets, self).__init__()
         self._hashed_sp = collections.OrderedDict()
         self._unhashed_sp = collections.OrderedDict()
+        # the hashed area exactly as received, and what it re-serialised to right after parsing
+        self._hashed_raw = None
+        self._hashed_parsed = None
 
     def __bytearray__(self):
         _bytes = bytearray()
@@ -118,6 +121,14 @@ class SubPackets(collections_abc.MutableMapping, Field):
         return _bytes
 
     def __hashbytearray__(self):
+        _bytes = self._serialize_hashed()
+        # a received hashed area is covered by the signature octet for octet, so for as long as the parsed
+        # subpackets are unchanged it must be reproduced verbatim, not normalised
+        if self._hashed_raw is not None and _bytes == self._hashed_parsed:
+            return bytearray(self._hashed_raw)
+        return _bytes
+
+    def _serialize_hashed(self):
         _bytes = bytearray()
         _bytes += self.int_to_bytes(sum(len(sp) for sp in self._hashed_sp.values()), 2)
         for hsp in self._hashed_sp.values():
@@ -180,6 +191,8 @@ class SubPackets(collections_abc.MutableMapping, Field):
         sp = SubPackets()
         sp._hashed_sp = self._hashed_sp.copy()
         sp._unhashed_sp = self._unhashed_sp.copy()
+        sp._hashed_raw = copy.copy(self._hashed_raw)
+        sp._hashed_parsed = copy.copy(self._hashed_parsed)
 
         return sp
 
@@ -201,6 +214,7 @@ class SubPackets(collections_abc.MutableMapping, Field):
 
     def parse(self, packet):
         hl = self.bytes_to_int(packet[:2])
+        raw = bytearray(packet[:2 + hl])
         del packet[:2]
 
         # we do it this way because we can't ensure that subpacket headers are sized appropriately
@@ -210,6 +224,10 @@ class SubPackets(collections_abc.MutableMapping, Field):
         while plen - len(packet) < hl:
             sp = SignatureSP(packet)
             self['h_' + sp.__class__.__name__] = sp
+
+        if plen - len(packet) == hl and len(raw) == 2 + hl:
+            self._hashed_raw = raw
+            self._hashed_parsed = self._serialize_hashed()
 
         uhl = self.bytes_to_int(packet[:2])
         del packet[:2]
